@@ -509,7 +509,8 @@ def explicit_routing(a):
     r = a.req('RouteRequest', field('name', 1, 'string'), field('table', 2, 'string'), field('app', 3, Q('Shelf')))
     a.rpc(method('Route', r, Q('Book'), http=('post', '/v1/{name=shelves/*}:route', '*'),
                  routing=[('name', ''), ('table', '{table_location=regions/*}/**'), ('app.name', '{routing_id=**}'),
-                          ('table', '{routing_id=projects/*}/**')]))
+                          ('table', '{routing_id=projects/*}/**'), ('name', 'shelves/*/{book_id=books/*}'),
+                          ('name', 'shelves/*/books/{leaf_id=*}/pages/*')]))
 
 
 @edit
